@@ -61,7 +61,8 @@ P["C06"] = dict(
     claimed=True,
     technique="static analysis: exact checks of the ellipsoid table (f64 grammar, uniqueness, golden a and 1/f), "
               "series reversion identities, meridian-arc coefficients = binom(1/2,k)^2",
-    decides=["T-ELLPS: every row parses, is unique, equals the published a and 1/f; gamut defaults name rows",
+    decides=["R-CURVATURE-MEANS: combined radii of curvature satisfy their defining identities in the two principal radii",
+             "T-ELLPS: every row parses, is unique, equals the published a and 1/f; gamut defaults name rows",
              "T-SERIES: auxiliary-latitude series pairs are exact reversions to n^6",
              "T-MERIDIAN: MERIDIAN_ARC_COEFFICIENTS[k] = binom(1/2,k)^2",
              "R-DIMENSION: (units-of-measure inference) every addition, subtraction and comparison in the ellipsoid geometry and in the operators with documented tuple conventions joins quantities of one physical dimension, transcendental functions get dimensionless arguments, and written tuple elements have the documented dimension (length / angle / time)",
@@ -81,7 +82,8 @@ P["C06"] = dict(
 P["C11"] = dict(
     claimed=True,
     technique="static analysis: exact checks of the unit and adaptor tables from HIR constants",
-    decides=["T-UNITS: unit names unique over linear++angular (first-hit lookup), multiplier = own factor string = "
+    decides=["R-DEDUP-SORTED: no vector is de-duplicated (Vec::dedup*) without a dominating sort of the same vector (duplicate-axis detection sees non-adjacent duplicates)",
+             "T-UNITS: unit names unique over linear++angular (first-hit lookup), multiplier = own factor string = "
              "published factor", "T-ADAPTORS: the 8 documented adaptor macros, registered by both contexts",
              "R-GATHER-SCATTER: adapt and axisswap forward gather out[k]=in[perm[k]]*m[k]; the inverse is the scatter "
              "out[perm[k]]=in[k]*m'[k] with the multiplier at the same index",
@@ -375,7 +377,8 @@ P["C14"] = dict(
     claimed=True,
     technique="static analysis: wiring rules between sibling implementations (contexts, adapt/axisswap/unitconvert, "
               "operators vs their parameter declarations) and exact series identities between tables of different origin",
-    decides=["R-CONTEXT-AGREE: Minimal and Plain provide the same globals, forward (direction, operands) unchanged to "
+    decides=["R-CURVATURE-MEANS: the gaussian, mean and azimuthal radii of the curvature operator satisfy, as exact rational functions of M, N and sin/cos of the azimuth, R^2 = M N, R (M + N) = 2 M N and Euler's R (N cos^2 + M sin^2) = M N",
+             "R-CONTEXT-AGREE: Minimal and Plain provide the same globals, forward (direction, operands) unchanged to "
              "Op::apply of the stored operator, and hand the definition to Op::new unchanged (Plain: through parse_proj only)",
              "R-KEY-DECLARED: every parameter key an operator reads at apply time is declared by its gamut or stored by "
              "its constructor (a mis-keyed option would make the operator disagree with the ellipsoid method it wraps)",
@@ -401,7 +404,8 @@ P["C14"] = dict(
 P["C16"] = dict(
     claimed=True,
     technique="static analysis: declaration/use agreement of parameter keys between gamuts, constructors and readers",
-    decides=["R-KEY-DECLARED: every key read by an operator (flags included) is declared in its gamut, stored by its "
+    decides=["R-DEDUP-SORTED: no vector is de-duplicated without a dominating sort of the same vector",
+             "R-KEY-DECLARED: every key read by an operator (flags included) is declared in its gamut, stored by its "
              "constructor, or implicit; so a declared flag is what the operator consults ('flags are true when present')",
              "R-TYPED-EXTRACT: in ParsedParameters::new each OpParameter variant is parsed by the parser of the declared type (usize / i64 / parse_sexagesimal / none) and naturals and integers are stored unconverted",
              "R-SIGN-CARRIER: parse_sexagesimal takes the sign of the angle from the sign bit (signum) of the degrees field whose magnitude it uses, so -0:30 keeps its sign",
